@@ -210,7 +210,7 @@ Inductive wevent :=
 | WRecord (b : nat) (h : N)
 | WNoRecord (b : nat)                     (* a successful finish / adopt not followed by a record *)
 | WWrite (name : bytes) (t : option mtime)   (* a command (or the user) wrote / removed a file *)
-| WAdopt (b : nat).                        (* adopt mode: record_finished with no reported deps *)
+| WAdopt (b : nat).                        (* adopt mode: record_finished with the deps already known *)
 
 Inductive wcheck :=
 | WOk (w : wstate)
@@ -233,7 +233,7 @@ Fixpoint replay (g : wgraph) (w : wstate) (pend : option (nat * option (list byt
       else WMismatch i 1 (match r with DDirty why => [why] | DError m => m | DClean => [] end)
     | WFinish b term reported =>
       if (term =? 0)%N then replay g w (Some (b, reported)) rest (S i) else replay g w None rest (S i)
-    | WAdopt b => replay g w (Some (b, None)) rest (S i)
+    | WAdopt b => replay g w (Some (b, Some (disc_of w b))) rest (S i)   (* after the fix for F10 *)
     | WRecord b h =>
       match pend with
       | Some (b', reported) =>
